@@ -8,7 +8,7 @@ From FlacWriters Require Import Params Params_proofs Finalize Writers Encoder_pr
 From FlacReaders Require Readers Spec Seek.
 From FlacE2E Require Bridge E2E Success ReadBridge ReadersE2E Transfer ByteE2E ChannelE2E ChannelSuccess.
 From FlacE2EMeta Require Import MetaBridge FinishedBlocks.
-From FlacE2EUpd Require Import RealCodec CodecView UpdateE2E WrittenEdited WrittenEditedFronts WrittenEditedRead.
+From FlacE2EUpd Require Import RealCodec CodecView UpdateE2E WrittenEdited WrittenEditedFronts WrittenEditedRead WrittenEditedValidFronts.
 Open Scope N_scope.
 
 Theorem C10_written_then_edited_lossless : forall (u : list N -> bool),
@@ -220,3 +220,54 @@ Theorem C10_written_then_edited_valid : forall (u : list N -> bool),
 Proof. exact written_then_edited_valid. Qed.
 
 Print Assumptions C10_written_then_edited_valid.
+
+(* ... the same for FlacByteWriter and FlacChannelWriter runs *)
+Theorem C10_byte_written_then_edited_valid : forall (u : list N -> bool),
+  (forall s, Forall (fun b => b < 128) s -> u s = true) ->
+  forall o L md5, (forall l, length (md5 l) = 16%nat) -> (forall l, Forall (fun b => b < 256) (md5 l)) ->
+  forall p rate bps ch, rate < 2 ^ 20 -> 1 <= bps -> bps <= 32 -> 1 <= ch -> ch <= 8 ->
+  forall en wo total w (chunks : list (list N)),
+  options_wf wo -> Forall plain (o_metadata wo) -> seektables (o_metadata wo) = 0%nat ->
+  byte_new p en [] wo rate bps ch total = Ok w ->
+  Forall byte_ok (concat chunks) ->
+  let nb := bytes_per_sample_of bps in
+  let samples := decoded en (N.to_nat nb) (concat chunks) in
+  forallb (FlacCodec.Wf.fits bps) samples = true ->
+  let W := N.of_nat (length samples) / ch in
+  1 <= W -> N.of_nat (length samples) < 2 ^ 36 ->
+  match total with Some T => T = nb * (ch * W) | None => True end ->
+  exists f blocks,
+    byte_run (FlacE2E.E2E.encB o L rate bps) md5 p w chunks = Ok f /\
+    concat (map FlacCodec.Stream.interleave_frame blocks) =
+      firstn (N.to_nat ch * (length samples / N.to_nat ch)) samples /\
+    forall edits fn rs,
+      Forall (typed_edit u) edits -> Forall (U.keeps_streaminfo FlacMeta.Blocks.block) edits ->
+      U.run_edits FlacMeta.Blocks.block psize_r ser_r uclass_r (read_blocks_r u) edits (f_stream f) = (fn, rs) ->
+      FlacCodec.Spec.spec_stream fn = Ok (FlacE2E.Bridge.conv_si (f_si f), blocks).
+Proof. exact byte_written_then_edited_valid. Qed.
+
+Theorem C10_channel_written_then_edited_valid : forall (u : list N -> bool),
+  (forall s, Forall (fun b => b < 128) s -> u s = true) ->
+  forall o L md5, (forall l, length (md5 l) = 16%nat) -> (forall l, Forall (fun b => b < 256) (md5 l)) ->
+  forall p rate bps ch, rate < 2 ^ 20 -> 1 <= bps -> bps <= 32 -> 1 <= ch -> ch <= 8 ->
+  forall wo total w (chunks : list (list (list Z))),
+  options_wf wo -> Forall plain (o_metadata wo) -> seektables (o_metadata wo) = 0%nat ->
+  channel_new p [] wo rate bps ch total = Ok w ->
+  Forall (chunk_ok (N.to_nat ch)) chunks ->
+  let samples := concat (multizip (cconcat (N.to_nat ch) chunks)) in
+  forallb (FlacCodec.Wf.fits bps) samples = true ->
+  let W := N.of_nat (length samples) / ch in
+  1 <= W -> N.of_nat (length samples) < 2 ^ 36 ->
+  match total with Some T => T = W | None => True end ->
+  exists f blocks,
+    channel_run (FlacE2E.E2E.encB o L rate bps) md5 p w chunks = Ok f /\
+    concat (map FlacCodec.Stream.interleave_frame blocks) =
+      firstn (N.to_nat ch * (length samples / N.to_nat ch)) samples /\
+    forall edits fn rs,
+      Forall (typed_edit u) edits -> Forall (U.keeps_streaminfo FlacMeta.Blocks.block) edits ->
+      U.run_edits FlacMeta.Blocks.block psize_r ser_r uclass_r (read_blocks_r u) edits (f_stream f) = (fn, rs) ->
+      FlacCodec.Spec.spec_stream fn = Ok (FlacE2E.Bridge.conv_si (f_si f), blocks).
+Proof. exact channel_written_then_edited_valid. Qed.
+
+Print Assumptions C10_byte_written_then_edited_valid.
+Print Assumptions C10_channel_written_then_edited_valid.
